@@ -10,7 +10,9 @@ SPEC = {
                      "tActisenseReader (ActisenseReader.cpp) by hand; the index width (uint16_t) and buffer sizes (478, 300, 223) "
                      "are copied from the declarations, not extracted; little-endian host (GetBuf memcpy)",
                      "the content of the caller's tN2kMsg after GetMessageFromStream returned false is not modelled",
-                     "N2kMillis() is a harness-controlled clock (N2kTimer.cpp not linked)"],
+                     "N2kMillis() is a harness-controlled clock (N2kTimer.cpp not linked)",
+                     "which time stamp a decoded data frame carries (embedded / local receive time) is a model parameter "
+                     "(Cfg.stampLocal) learnt from the code by a probe; the oracle does not constrain MsgTime"],
     'assumptions': ["single-threaded use of a reader", "N2kStream::peek()/read() return the same next byte (a FIFO byte stream)",
                     "valid message = tN2kMsg::IsValid() (PGN != 0, DataLen > 0) with DataLen <= MaxDataLen",
                     "the forwarding policy of NMEA2000.cpp (ForwardMessage) is not covered: only the direct call of "
